@@ -77,6 +77,19 @@ def expr_level(ctx, exe, harness, quick, stats):
     model = p.stdout.split("\n")[:-1]
     if not (len(cases) == len(impl) == len(model)):
         raise vlib.CheckFailure("line count mismatch cases=%d impl=%d model=%d" % (len(cases), len(impl), len(model)))
+    # guard of the extraction and driver glue: cases whose model output is also a Coq theorem
+    expected = {}
+    for line in open(os.path.join(vlib.VERIF, "corpus", "C08", "expr_expected.txt")):
+        if " => " in line and not line.startswith("#"):
+            c, e = line.rstrip("\n").split(" => ", 1)
+            expected[c] = e
+    if not ctx.replay:
+        p2 = vlib.run([exe], input="\n".join(expected.keys()) + "\n", timeout=600, stderr=None)
+        got = p2.stdout.split("\n")[:-1]
+        bad = [(c, e, g) for (c, e), g in zip(expected.items(), got) if e != g]
+        stats["extraction_guard_cases"] = len(expected)
+        if bad or len(got) != len(expected):
+            raise vlib.CheckFailure("extracted model disagrees with kernel-checked values: %r" % (bad[:2],))
     kinds = stats.setdefault("expr_case_kinds", {})
     outcome = stats.setdefault("expr_outcomes", {})
     distinct = set()
